@@ -104,7 +104,7 @@ impl Property for C18 {
     fn budget(&self, tier: Tier) -> Budget {
         match tier {
             Tier::Quick => Budget {
-                seconds: 20,
+                seconds: 60,
                 max_cases: 400_000,
             },
             Tier::Thorough => Budget {
